@@ -191,7 +191,7 @@ func (p *Program) intrinsicFor(fn *ssa.Function) *intrinsic {
 
 func (p *Program) reg(name string, f func(ex *Exec, fr *Frame, args []Value) Value) {
 	p.intr[name] = &intrinsic{name: name, fn: f,
-		mayDecline: strings.Contains(name, "/codec/dagjson.") || strings.Contains(name, "/codec/dagcbor.") || strings.HasSuffix(name, "go-cid.Decode")}
+		mayDecline: strings.Contains(name, "/codec/dagjson.") || strings.Contains(name, "/codec/dagcbor.") || strings.HasSuffix(name, "go-cid.Decode") || strings.HasSuffix(name, ".EqualFold")}
 }
 
 // namedType finds a named type pkgpath.Name in the loaded program.
